@@ -468,7 +468,7 @@ func runCrash(ctx *core.RunCtx) {
 					return
 				}
 			}
-			if ms1.HeapSys > ms0.HeapSys && ms1.HeapSys-ms0.HeapSys > 16*lim.Memory+128<<20 {
+			if ms1.HeapSys > ms0.HeapSys && ms1.HeapSys-ms0.HeapSys > 64*lim.Memory+128<<20 {
 				ctx.Fail("C06", "C06.M3", "heap-growth:"+fn.path, "the Go heap grew by %d bytes under memory limit %d; %s", ms1.HeapSys-ms0.HeapSys, lim.Memory, where)
 				return
 			}
